@@ -145,6 +145,16 @@ func fsck(r *Rig, nameMax uint64) (info *fsckInfo, err error) {
 		inums = append(inums, i)
 	}
 	sort.Slice(inums, func(a, b int) bool { return inums[a] < inums[b] })
+	// "every inode in use is marked in use and vice versa": a number that is marked
+	// in the bitmap must belong to an inode that is in use (inodes that are free,
+	// hold nothing and are not being freed were not collected above)
+	for n := uint64(2); n < ninode && n < uint64(len(ibm))*8; n++ {
+		if bit(ibm, n) {
+			if _, ok := inodes[n]; !ok {
+				return info, ferr("inode-bitmap", "inode %d is free but marked in use in the inode bitmap", n)
+			}
+		}
+	}
 
 	owner := map[uint64]uint64{}
 	own := func(bn, ino uint64, what string) error {
